@@ -8,6 +8,8 @@ import (
 	"os"
 	"path/filepath"
 
+	abcitypes "github.com/tendermint/tendermint/abci/types"
+
 	"github.com/shutter-network/rolling-shutter/rolling-shutter/app"
 
 	"github.com/shutter-network/rolling-shutter/rolling-shutter/shmsg"
@@ -55,7 +57,12 @@ func replicate(run *vh.Run, h appdrv.History, reps int, key string) bool {
 				later = append(later, c.Tx)
 			}
 		}
+		r1s := make([]string, len(h.Calls))
+		lastEnd := int64(0)
 		for i, c := range h.Calls {
+			if c.Kind == "end" {
+				lastEnd = c.Height
+			}
 			if c.Kind == "check" {
 				appdrv.RawResp(a1, c)
 				if run.RNG.Chance(1, 2) {
@@ -79,6 +86,7 @@ func replicate(run *vh.Run, h appdrv.History, reps int, key string) bool {
 				}
 			}
 			r1, r2 := appdrv.RawResp(a1, c), appdrv.RawResp(a2, c)
+			r1s[i] = r1
 			// the second replica writes its state file at commits of its own choosing
 			if c.Kind == "commit" && tmpDir != "" && i != restartAt && run.RNG.Chance(1, 3) {
 				a2.Gobpath = filepath.Join(tmpDir, "c09.gob")
@@ -91,6 +99,38 @@ func replicate(run *vh.Run, h appdrv.History, reps int, key string) bool {
 					if sa, err := app.LoadShutterAppFromFile(a2.Gobpath); err == nil {
 						a2 = &sa
 						a2.Gobpath = ""
+						// the handshake: Tendermint asks the restarted application for its height and
+						// replays every block above it; the replayed blocks must be answered as the
+						// first replica answered them
+						info := a2.Info(abcitypes.RequestInfo{}).LastBlockHeight
+						if info > lastEnd {
+							run.Violate(vh.Violation{Key: key + ":handshake", What: fmt.Sprintf("restarted after call %d: the application reports height %d, the last executed block is %d", i, info, lastEnd), Case: h})
+							ok = false
+							break
+						}
+						if info < lastEnd {
+							from := -1
+							for j := 0; j <= i; j++ {
+								if h.Calls[j].Kind == "begin" && h.Calls[j].Height > info {
+									from = j
+									break
+								}
+							}
+							for j := from; from >= 0 && j <= i; j++ {
+								if h.Calls[j].Kind == "check" {
+									continue
+								}
+								if rr := appdrv.RawResp(a2, h.Calls[j]); rr != r1s[j] {
+									run.Violate(vh.Violation{Key: key + ":handshake", What: fmt.Sprintf("restarted after call %d: the application reports height %d although block %d is in its state; the handshake replays call %d (%s %s), which is answered differently the second time", i, info, lastEnd, j, h.Calls[j].Kind, h.Calls[j].Note),
+										Case: h, Observed: []string{fmt.Sprintf("%q", r1s[j]), fmt.Sprintf("%q", rr)}})
+									ok = false
+									break
+								}
+							}
+							if !ok {
+								break
+							}
+						}
 					}
 				}
 			}
